@@ -1,7 +1,7 @@
 """API-history explorer (C10): BFS over operation sequences on real message objects.
 
 A state is reached by replaying its history on a fresh object; states are
-deduplicated on (reference-model state, hidden stored-key structure of the
+deduplicated on (reference-model state, hidden stored keys and values of the
 implementation).  Every transition is executed twice: sparse (nothing read
 between operations) and dense (full read-through after every operation)."""
 import traceback
